@@ -31,7 +31,36 @@ enum Ty {
     Nested(usize),
     /// a derived set of the BASE family (module `single` / `multi`), named by path from a `_b` module
     NestedBase(usize),
+    /// a generic probe agent (or another spelling of a probe type) whose type is written with tokens that a
+    /// derive macro has to skip over correctly: `->`, `>>`, `<<`, commas and brackets inside generic arguments
+    Generic(usize),
 }
+
+/// spellings of a field type for `Ty::Generic` (all of them agents: ProbeG<T> implements the agent trait for every T).
+/// Not included: array lengths written as block / operator expressions (`[u8; { 1 + 2 }]`, `[u8; (1 << 2) as usize]`):
+/// the pinned macros reject them at compile time (syn without its "full" feature: "unsupported expression"), loudly,
+/// so there is no derived set whose behaviour could be compared.
+const GENERIC_TYPES: [&str; 19] = [
+    "ProbeG<u8>",
+    "ProbeG<fn(u64) -> bool>",
+    "ProbeG<Box<dyn Fn(u64) -> bool>>",
+    "ProbeG<Vec<Vec<u8>>>",
+    "ProbeG<(u8, u16)>",
+    "ProbeG<[u8; 3]>",
+    "ProbeG<&'static str>",
+    "ProbeG<fn(u8, u16) -> (u8, u16)>",
+    "<ProbeA as Same>::Out",
+    "(ProbeB)",
+    "ProbeG<ProbeG<u8>>",
+    "ProbeG<dyn Fn() -> u8>",
+    "ProbeG<for<'a> fn(&'a u8) -> &'a u8>",
+    "ProbeG<u8,>",
+    "ProbeG<std::collections::HashMap<u8, Vec<(u8, u16)>>>",
+    "ProbeG<*const u8>",
+    "ProbeG<Option<fn() -> Result<u8, u16>>>",
+    "ProbeG<[fn(u8) -> u8; 2]>",
+    "ProbeG<()>",
+];
 
 struct Shape {
     fields: Vec<(String, Ty)>,
@@ -49,8 +78,10 @@ fn gen_shapes_b(seed: u64, n: usize, base_depth0: &[usize]) -> Vec<Shape> {
         let mut fields = vec![];
         let mut depth = 0;
         for i in 0..nf {
-            let c = r.below(10);
-            let ty = if c < 3 {
+            let c = r.below(13);
+            let ty = if c >= 10 {
+                Ty::Generic(r.below(GENERIC_TYPES.len()))
+            } else if c < 3 {
                 Ty::ProbeA
             } else if c < 6 {
                 Ty::ProbeB
@@ -75,6 +106,11 @@ fn gen_shapes_b(seed: u64, n: usize, base_depth0: &[usize]) -> Vec<Shape> {
             fields.push((format!("{}{}", ["m", "a", "_z", "k"][r.below(4)], i), ty));
         }
         shapes.push(Shape { fields, depth });
+    }
+    // every spelling of a generic member type once in FIRST, once in a MIDDLE and once in LAST position
+    for g in 0..GENERIC_TYPES.len() {
+        let g2 = (g * 7 + 3) % GENERIC_TYPES.len();
+        shapes.push(Shape { fields: vec![("g0".to_string(), Ty::Generic(g)), ("a1".to_string(), Ty::ProbeA), ("g2".to_string(), Ty::Generic(g2)), ("b3".to_string(), Ty::ProbeB), ("m4".to_string(), Ty::Generic(g))], depth: 0 });
     }
     shapes
 }
@@ -197,6 +233,7 @@ fn emit(out: &mut String, module: &str, base: &str, market: bool, shapes: &[Shap
                 Ty::Builtin => "Builtin".to_string(),
                 Ty::Nested(j) => format!("S{}", j),
                 Ty::NestedBase(j) => format!("super::{}::S{}", base, j),
+                Ty::Generic(g) => GENERIC_TYPES[*g].to_string(),
             };
             // some fields carry doc comments / attributes (they are attributes to the derive macro)
             let h = nm.bytes().fold(k as u64 * 31 + 7, |a, b| a.wrapping_mul(131).wrapping_add(b as u64));
@@ -227,6 +264,7 @@ fn emit(out: &mut String, module: &str, base: &str, market: bool, shapes: &[Shap
                 Ty::Builtin => "new_builtin(tag)".to_string(),
                 Ty::Nested(j) => format!("S{}::build(tag)", j),
                 Ty::NestedBase(j) => format!("super::{}::S{}::build(tag)", base, j),
+                Ty::Generic(g) => if GENERIC_TYPES[*g].starts_with("<ProbeA") { "ProbeA::new(tag)".to_string() } else if GENERIC_TYPES[*g].starts_with("(ProbeB") { "ProbeB::new(tag)".to_string() } else { "ProbeG::new(tag)".to_string() },
             };
             writeln!(out, "                {}: {},", nm, e).unwrap();
         }
